@@ -26,7 +26,7 @@ ASSUMPTIONS = ["oracle A tolerance 1e-6 * (1 + sum |cost parts|); AC OPF with pw
                "non-convergence and documented rejections are legal and counted"]
 
 CFG = dict(p_dc=0.5, cost_prob=0.8, quad=0.4, pwl=0.35, const=0.35, even_on_consumers=0.25, fixed_cost=0.04, scaling=0.02,
-           tight_branch=0.5, tight_dc=0.7, gen_index_gap=0.08, dcline_lossless=0.7, oos_el=0.01, oos_bus=0.005, dead_terminal=0.03)
+           q_cost=0.45, tight_branch=0.6, tight_dc=0.85, gen_index_gap=0.08, dcline_lossless=0.7, oos_el=0.01, oos_bus=0.005, dead_terminal=0.03)
 
 
 def strategy(tier):
